@@ -266,6 +266,27 @@ impl LeafOut for Result<Val, Val> {
         }
     }
 }
+impl LeafOut for Unit {
+    fn make(w: &mut World, node: NodeId, _err: bool, _h: &mut Option<Val>) -> (Self, Res, Option<u32>) {
+        // a virtual value for the models; nobody can return or drop it
+        let v = w.val_new(node);
+        w.vals[v as usize].untracked = true;
+        (Unit, Res::Ready, Some(v))
+    }
+}
+impl LeafOut for Result<Unit, Val> {
+    fn make(w: &mut World, node: NodeId, err: bool, _h: &mut Option<Val>) -> (Self, Res, Option<u32>) {
+        if err {
+            let v = Val::new(w, node);
+            let id = v.id;
+            (Err(v), Res::Err, Some(id))
+        } else {
+            let v = w.val_new(node);
+            w.vals[v as usize].untracked = true;
+            (Ok(Unit), Res::Ok, Some(v))
+        }
+    }
+}
 impl LeafOut for () {
     fn make(_w: &mut World, _node: NodeId, _err: bool, _h: &mut Option<Val>) -> (Self, Res, Option<u32>) {
         ((), Res::Ready, None)
